@@ -117,4 +117,65 @@ theorem erase_topLoop (f : Nat) : (S.topLoop f).erase = topLoop f := by
     | none => rfl
     | some tok => simp only [SProg.erase_bind, SProg.erase, (eraseOK n).1 tok, ih]
 
+/-! ## the suspended program -/
+
+/-- is the outcome of a run "more input needed"? -/
+def Fin.isMore {α : Type} : Fin α → Bool
+  | .stop .more => true
+  | _ => false
+
+/-- a waiting instruction at the head: what a suspended coroutine is blocked in -/
+def SProg.isWait {α : Type} : SProg α → Bool
+  | .waitPeek _ _ | .waitLoop _ _ | .signPeek _ | .peekAt _ _ | .getTok _ | .topGet _ => true
+  | _ => false
+
+/-- **A coroutine is suspended exactly when the parse answered "more input needed"**, and what it
+is blocked in is a waiting instruction — for every program and every state. (`PSt.parseTokens`
+keeps `residual` as `Parser.next`.) -/
+theorem residual_iff_more {α : Type} (p : SProg α) (s : PState) :
+    (residual p s).isSome = (run p.erase s).1.isMore ∧ (∀ κ, residual p s = some κ → κ.isWait = true) := by
+  induction p generalizing s with
+  | pure a => exact ⟨rfl, by intro κ h; simp [residual] at h⟩
+  | fail => exact ⟨rfl, by intro κ h; simp [residual] at h⟩
+  | waitPeek n k ih =>
+    simp only [residual, SProg.erase, run]
+    cases peekWaitRun false n (s.size + 1) s with
+    | tok t s' => exact ih t s'
+    | stop st s' => cases st <;> simp [Fin.isMore, SProg.isWait]
+  | waitLoop on k _ ih =>
+    simp only [residual, SProg.erase, run]
+    cases peekWaitRun false 0 (s.size + 1) s with
+    | tok t s' => exact ih t s'
+    | stop st s' => cases st <;> simp [Fin.isMore, SProg.isWait]
+  | signPeek k ih =>
+    simp only [residual, SProg.erase, run]
+    cases peekWaitRun true 0 (s.size + 1) s with
+    | tok t s' => exact ih t s'
+    | stop st s' => cases st <;> simp [Fin.isMore, SProg.isWait]
+  | peekAt n k ih =>
+    simp only [residual, SProg.erase, run]
+    cases peekWaitRun false n (s.size + 1) s with
+    | tok t s' =>
+      simp only
+      cases s'.lex.tokens[n]? with
+      | some t' => exact ih t' s'
+      | none => simp [Fin.isMore]
+    | stop st s' => cases st <;> simp [Fin.isMore, SProg.isWait]
+  | getTok k ih =>
+    simp only [residual, SProg.erase, run]
+    cases peekWaitRun false 0 (s.size + 1) s with
+    | tok t s' => exact ih t _
+    | stop st s' => cases st <;> simp [Fin.isMore, SProg.isWait]
+  | topGet k ih =>
+    simp only [residual, SProg.erase, run]
+    cases topGetRun (s.size + 1) s with
+    | tok t s' => exact ih (some t) s'
+    | finished st s' =>
+      cases st with
+      | done => exact ih none s'
+      | more => simp [Fin.isMore, SProg.isWait]
+      | err => simp [Fin.isMore]
+  | pushTok t k ih => simp only [residual, SProg.erase, run]; exact ih _
+  | pushExpr e k ih => simp only [residual, SProg.erase, run]; exact ih _
+
 end ZygoVerif.Parser
